@@ -10,7 +10,7 @@ THEOREMS = [
     ('EAO.Properties.C04', 'EAO.C04.value_accounting_split', 'the same for split problems: interval by interval, summed'),
     ('EAO.Properties.C03', 'EAO.C03.blockSum_value', 'value of the block-diagonal sum of interval problems = sum of interval values'),
 ]
-COMPONENTS = ['assemble (cost, mapping) on captured real asset problems', 'readout.dcf vs Asset.dcf / io.extract_output["DCF"]']
+COMPONENTS = ['hypotheses of the assembly theorems (well-formedness of asset problems) evaluated on every captured real asset problem', 'assemble (cost, mapping) on captured real asset problems', 'readout.dcf vs Asset.dcf / io.extract_output["DCF"]']
 RULE = ('random portfolios incl. periodic, coarse-frequency, scaled, structured assets and order books; mono and split; '
         'non-trivial = solved scenario with >= 2 assets having non-zero cash flow; distinct by scenario hash')
 ASSUMPTIONS = ['oracle tolerance 1e-6 * max(1,|value|, sum|DCF|)']
@@ -42,6 +42,8 @@ def run_case(scn, drv):
     except Exception as e:
         feats.append('setup-error:' + impl.err_class(e))
         return r
+    r['disagreements'] += pf.hyp_wf(rec)
+    feats.append('hypotheses-evaluated')
     r['disagreements'] += pf.corr_assemble(rec, drv, aspects=('c', 'mapping'))
     pf.solve_rec(rec)
     if isinstance(rec['res'], str):
